@@ -8,7 +8,7 @@ FRAME_NOTE = "Sequential operation (concurrency = 1) unless stated. Trusted: go/
 CHECKS = {
  "C01": dict(
   text="Bounded symbolic model checking of the real compressors and decoders: for every source content at each length in the bound (and the periodic long-match family) the fast and HC compressors (fresh, reused with arbitrary prior tables, pooled) are executed symbolically, the block is decoded by the real decoder (portable Go and amd64 assembly) and the result compared with the source. Verdicts are SMT unsat answers / syntactic identities; solver models are replayed natively.",
-  note=BLOCK_NOTE + " The block hashes are summarised as uninterpreted functions (over-approximation). Sources > 64 KiB are outside the bound.",
+  note=BLOCK_NOTE + " The block hashes are summarised as uninterpreted functions (over-approximation). Sources > 64 KiB are outside the bound except the concrete window (65.6 KB) and long-literal-run (74 KB) families.",
   technique="bounded symbolic execution of go/ssa and of decode_amd64.s + SMT (z3), native replay",
   design="DESIGN.md section 5 C01"),
  "C03": dict(
